@@ -148,14 +148,15 @@ def check_delta_flow(ctx: Ctx, rule: str):
     sc = [c for c in find_calls(add.node, "codegen.scheme")]
     sc = sc or [c for c in ast.walk(add.node) if isinstance(c, ast.Call) and isinstance(c.func, ast.Attribute) and c.func.attr == "scheme"]
     ctx.check(bool(sc) and any(k.arg is None for k in sc[0].keywords), rule, add.key("kwargs-forwarded"), "**kwargs reach codegen.scheme", "add_schemes does not forward the per-scheme keyword arguments (**...) to codegen.scheme", add.where())
-    cg = sm.func("codegen/base.py", "CodeGenerator.scheme")
-    fparam = cg.params[1]
-    bcall = [c for c in ast.walk(cg.node) if isinstance(c, ast.Call) and isinstance(c.func, ast.Name) and c.func.id == fparam]
-    ctx.check(bool(bcall) and any(k.arg is None and norm(k.value) == "kwargs" for k in bcall[0].keywords), rule, cg.key("kwargs-forwarded"), "**kwargs reach the scheme builder", "CodeGenerator.scheme does not forward **kwargs to the builder", cg.where())
-    for short, qn in (("cli/gotran2py.py", "get_code"), ("cli/gotran2c.py", "get_code")):
-        g = sm.func(short, qn)
-        calls = [c for c in find_calls(g.node, "add_schemes")]
-        ctx.check(bool(calls) and common.forwards(calls[0], "delta", "delta"), rule, g.key("delta"), "get_code forwards delta", f"{short}::get_code does not forward delta to add_schemes", g.where())
+    cg, bcall, cgv = common.scheme_builder_call(ctx)
+    if bcall is None:
+        ctx.undecided(rule, cg.key("kwargs-forwarded"), "CodeGenerator.scheme: the call of the scheme builder is not found in what the method computes", cg.where())
+    else:
+        kws = bcall[3] if bcall[0] == "call" else bcall[3]
+        ctx.check(any(k == "**" and x[0] == "sym" and x[1].lstrip("*") == "kwargs" for k, x in kws), rule, cg.key("kwargs-forwarded"), "**kwargs reach the scheme builder", "CodeGenerator.scheme does not forward **kwargs to the builder", cg.where())
+    from .c18 import check_get_code_forwards
+
+    check_get_code_forwards(ctx, rule, "delta")
 
 
 def run(ctx: Ctx):
